@@ -13,7 +13,7 @@ import (
 // of the build that found it; for the concurrent workload a candidate is
 // accepted only if it fails in two consecutive executions. Budget: 300
 // candidates or 120 s.
-func minimise(cfg *config, job *Job, p *plan.Plan, v plan.Violation, budget time.Duration) (*plan.Plan, plan.Violation) {
+func minimise(cfg *config, job *Job, p *plan.Plan, v plan.Violation, budget time.Duration, prelude []plan.Ref) (*plan.Plan, plan.Violation) {
 	deadline := time.Now().Add(budget)
 	tried := 0
 	best := p.Clone()
@@ -96,9 +96,30 @@ func minimise(cfg *config, job *Job, p *plan.Plan, v plan.Violation, budget time
 		return -1
 	}
 	_ = testMany
-	// confirm the failure reproduces from the plan file at all
+	// Does the plan alone reproduce the failure in a fresh process? If the
+	// tree under test keeps state across calls it may not; then the runs its
+	// worker process executed before it become part of the replay, and are
+	// themselves minimised first.
 	if !test(best.Clone()) {
-		return p, v
+		if len(prelude) == 0 {
+			return p, v
+		}
+		withAll := p.Clone()
+		withAll.Prelude = prelude
+		if !test(withAll) {
+			// keep the complete history: still the exact sequence that failed
+			return withAll, v
+		}
+		ddmin(len(best.Prelude), func(keep []bool) bool {
+			c := best.Clone()
+			c.Prelude = nil
+			for i, k := range keep {
+				if k {
+					c.Prelude = append(c.Prelude, best.Prelude[i])
+				}
+			}
+			return test(c)
+		})
 	}
 	parallelTest = testMany
 	defer func() { parallelTest = nil }()
